@@ -44,3 +44,12 @@ Theorem C04_parser :
     ((exists root, parse_tokens (body ++ [e]) = Ok (root, [])) <-> DS (map tk body)).
 Proof. exact C04_parser_proof. Qed.
 Print Assumptions C04_parser.
+
+(* ---- the generator reports no error exactly when the static rules hold (the reference semantics is defined) ---- *)
+From Theo Require Import Proofs_Static.
+
+Theorem C04_static :
+  forall toks root r, parse_tokens toks = Ok (Some root, []) -> gen true [] (Some root) = Ok r ->
+    (gr_errors r = [] <-> exists rs, abstract_source (Some root) = Some rs).
+Proof. exact C04_static_proof. Qed.
+Print Assumptions C04_static.
